@@ -197,3 +197,11 @@ Proof.
       vm_compute. eapply cq_here. vm_compute. reflexivity.
     + vm_compute. repeat split.
 Qed.
+
+(* adequacy of `visits`: the relation covers the run - every solution (answer store) of a run of solve is a
+   configuration that the run visits (so the theorems above hold in particular at every solution) *)
+Theorem C13_compiled_visits_covers_solutions : forall uf prog n gs s g g' a tr stk s',
+  solve uf prog n gs s g = Some (g', a, tr) -> In s' a ->
+  exists g'' stk', visits uf prog n (gs, s, g, stk) ([], s', g'', stk').
+Proof. exact visits_answers. Qed.
+Print Assumptions C13_compiled_visits_covers_solutions.
